@@ -11,7 +11,7 @@ import Mathlib.Tactic.SplitIfs
 
 set_option linter.unusedSimpArgs false
 
-namespace Cellml.Tie
+namespace Cellml.Tie.PUnits
 open Units PMap Cellml.Gen
 
 /-! ### `_prefix_name`, `_prefix_expression`, the `_WORD` substitution -/
@@ -244,4 +244,4 @@ theorem format_base_tie (st : Store) (reg : Registry) (rules : List Rule) (c : C
       Iso.strip (PyStr.str (toRoot reg c).1 ++ " " ++ PyStr.str (UnitObj.mk (toRoot reg c).2)) := by
   rfl
 
-end Cellml.Tie
+end Cellml.Tie.PUnits
